@@ -194,9 +194,10 @@ func sameValue(a, b ssa.Value) bool {
 	return Unwrap(a) == Unwrap(b)
 }
 
-// Unwrap strips value-preserving conversions.
+// Unwrap strips value-preserving conversions and loads of single-assignment spill cells
+// (parameters and locals captured by closures are spilled to an Alloc that is stored once).
 func Unwrap(v ssa.Value) ssa.Value {
-	for {
+	for i := 0; i < 32; i++ {
 		switch x := v.(type) {
 		case *ssa.ChangeType:
 			v = x.X
@@ -204,10 +205,127 @@ func Unwrap(v ssa.Value) ssa.Value {
 			v = x.X
 		case *ssa.ChangeInterface:
 			v = x.X
+		case *ssa.UnOp:
+			if x.Op == token.MUL {
+				if a, ok := x.X.(*ssa.Alloc); ok {
+					if val, ok := SingleStore(a); ok {
+						v = val
+						continue
+					}
+				}
+				if fv, ok := x.X.(*ssa.FreeVar); ok {
+					if val, ok := freeVarBinding(fv); ok {
+						v = val
+						continue
+					}
+				}
+			}
+			return v
 		default:
 			return v
 		}
 	}
+	return v
+}
+
+// SingleStore: the Alloc is written exactly once in its function (and not by closures capturing it)
+// and its address does not otherwise escape; returns the stored value.
+func SingleStore(a *ssa.Alloc) (ssa.Value, bool) {
+	refs := a.Referrers()
+	if refs == nil {
+		return nil, false
+	}
+	var val ssa.Value
+	n := 0
+	for _, r := range *refs {
+		switch y := r.(type) {
+		case *ssa.Store:
+			if y.Addr != ssa.Value(a) {
+				return nil, false // address stored somewhere
+			}
+			n++
+			val = y.Val
+		case *ssa.UnOp, *ssa.DebugRef:
+		case *ssa.MakeClosure:
+			fn, ok := y.Fn.(*ssa.Function)
+			if !ok {
+				return nil, false
+			}
+			for i, b := range y.Bindings {
+				if b == ssa.Value(a) && i < len(fn.FreeVars) {
+					if !freeVarReadOnly(fn.FreeVars[i]) {
+						return nil, false
+					}
+				}
+			}
+		case *ssa.FieldAddr, *ssa.IndexAddr:
+			return nil, false // aggregate local: not a scalar spill
+		default:
+			return nil, false
+		}
+	}
+	if n != 1 {
+		return nil, false
+	}
+	return val, true
+}
+
+func freeVarReadOnly(fv *ssa.FreeVar) bool {
+	refs := fv.Referrers()
+	if refs == nil {
+		return true
+	}
+	for _, r := range *refs {
+		switch y := r.(type) {
+		case *ssa.UnOp, *ssa.DebugRef:
+		case *ssa.MakeClosure:
+			fn, ok := y.Fn.(*ssa.Function)
+			if !ok {
+				return false
+			}
+			for i, b := range y.Bindings {
+				if b == ssa.Value(fv) && i < len(fn.FreeVars) && !freeVarReadOnly(fn.FreeVars[i]) {
+					return false
+				}
+			}
+		default:
+			return false
+		}
+	}
+	return true
+}
+
+// freeVarBinding: a free variable of a closure that is created at exactly one site, bound to a
+// single-store cell of the enclosing function: the captured value itself.
+func freeVarBinding(fv *ssa.FreeVar) (ssa.Value, bool) {
+	fn := fv.Parent()
+	par := fn.Parent()
+	if par == nil {
+		return nil, false
+	}
+	idx := -1
+	for i, f := range fn.FreeVars {
+		if f == fv {
+			idx = i
+		}
+	}
+	var bound ssa.Value
+	n := 0
+	for _, b := range par.Blocks {
+		for _, in := range b.Instrs {
+			if mc, ok := in.(*ssa.MakeClosure); ok && mc.Fn == ssa.Value(fn) && idx < len(mc.Bindings) {
+				n++
+				bound = mc.Bindings[idx]
+			}
+		}
+	}
+	if n != 1 {
+		return nil, false
+	}
+	if a, ok := bound.(*ssa.Alloc); ok {
+		return SingleStore(a)
+	}
+	return nil, false
 }
 
 // ErrNilAt: err value known nil / non-nil at block.
